@@ -475,7 +475,8 @@ def parseTx (l : String) : Tx :=
   let msgs := (parseMsgs (kv "msgs").toList).1
   let payer := if kv "payer" == "-" || kv "payer" == "" then none else some (kv "payer")
   let fee := if kv "fee" == "-" then [] else (parseCoins (kv "fee"))
-  let tx0 : Tx := { msgs := msgs, signers := [], payer := payer, fee := fee, gas := natTok (kv "gas") }
+  let granter := if kv "granter" == "-" || kv "granter" == "" then none else some (kv "granter")
+  let tx0 : Tx := { msgs := msgs, signers := [], payer := payer, fee := fee, gas := natTok (kv "gas"), granter := granter }
   let signers := if kv "signers" == "auto" then (requiredSigners tx0).getD []
     else ((kv "signers").splitOn ",").filterMap decodeAcc
   { tx0 with signers := signers }
